@@ -140,17 +140,20 @@ fn cmd_parse(args: &[String]) {
     // what the next revision would have to be told (planner's own answer)
     let mut items: Vec<Value> = Vec::new();
     let mut planned = false;
+    // is the explicit refusal "non-nullable foreign key column" due? (harness/common/src/fill.rs: keyed by (table, column))
+    let mut fk_refusal_due = false;
     if all_ok {
         plans.sort_by_key(|p| p.version);
         if let (Ok(plan), Ok(baseline)) = (plan_next_migration(&models, &plans), schema_from_plans(&plans)) {
             planned = true;
+            fk_refusal_due = vcommon::fill::refuses(&plan);
             for m in find_missing_fill_with(&plan, &baseline) {
                 items.push(json!({"table": m.table, "column": m.column, "default": m.default_value,
                                   "enum": m.enum_values, "action": m.action_type}));
             }
         }
     }
-    println!("{}", json!({"kind": "missing", "planned": planned, "items": items}));
+    println!("{}", json!({"kind": "missing", "planned": planned, "items": items, "fk_refusal_due": fk_refusal_due}));
 }
 
 fn build_all(qs: &[vespertide_query::BuiltQuery], b: vespertide_query::DatabaseBackend) -> Value {
